@@ -249,49 +249,58 @@ func checkC10(ck *Check) int {
 	return ck.finish("proof")
 }
 
-// runC10Search runs the concrete pair search of harness/c10_pairs_test.go on
-// the real middleware. asReplay: a self-composition obligation failed and the
-// search result is attached to the replay files (a failing pair found on the
+// runC10Search: see runConcreteSearch.
+func (ck *Check) runC10Search(asReplay bool) {
+	ck.runConcreteSearch(asReplay, "C10", "c10_pairs_test.go", "^TestGovcC10$",
+		"every pair of requests from a small universe x configurations x debug x pre-set Vary, oracle = the statement of C10")
+}
+
+// runConcreteSearch runs a concrete search harness (harness/<file>) on the
+// real middleware. asReplay: an obligation of the property failed and the
+// search result is attached to the replay files (a failing input found on the
 // real code confirms the violation); otherwise it is reported as a bounded
 // cross-check that is never counted as proved.
-func (ck *Check) runC10Search(asReplay bool) {
-	src, err := os.ReadFile(filepath.Join(ck.Verif, "harness", "c10_pairs_test.go"))
+func (ck *Check) runConcreteSearch(asReplay bool, tag, file, testRe, what string) {
+	src, err := os.ReadFile(filepath.Join(ck.Verif, "harness", file))
 	if err != nil {
 		ck.engineErr = append(ck.engineErr, err.Error())
 		return
 	}
-	out, _ := ck.runOverlayTest(".", "zz_govc_c10_test.go", string(src), "^TestGovcC10$", 10*time.Minute)
-	var configs, reqs, pairs, distinct, fails int
+	out, _ := ck.runOverlayTest(".", "zz_govc_"+strings.ToLower(tag)+"_test.go", string(src), testRe, 10*time.Minute)
 	found := false
+	fails := 0
+	summary := ""
 	var failLines []string
 	lines := strings.Split(out, "\n")
 	for i, ln := range lines {
-		if strings.HasPrefix(ln, "GOVC-C10-FAIL") && len(failLines) < 5 {
+		if strings.HasPrefix(ln, "GOVC-"+tag+"-FAIL") && len(failLines) < 5 {
 			fl := ln
 			for k := i + 1; k < len(lines) && k <= i+2 && strings.HasPrefix(lines[k], "  request"); k++ {
 				fl += " ;" + lines[k]
 			}
 			failLines = append(failLines, fl)
 		}
-		if strings.HasPrefix(ln, "GOVC-C10 ") {
-			fmt.Sscanf(ln, "GOVC-C10 configs=%d requests=%d pairs=%d distinct_pairs=%d fails=%d", &configs, &reqs, &pairs, &distinct, &fails)
+		if strings.HasPrefix(ln, "GOVC-"+tag+" ") {
+			summary = strings.TrimPrefix(ln, "GOVC-"+tag+" ")
+			if i := strings.LastIndex(ln, "fails="); i >= 0 {
+				fmt.Sscanf(ln[i:], "fails=%d", &fails)
+			}
 			found = true
 		}
 	}
 	d := map[string]any{
-		"name":     "bounded/C10.concrete_pairs",
-		"kind":     "BOUNDED search on the real middleware (not a proof): every pair of requests from a small universe x configurations x debug x pre-set Vary, oracle = the statement of C10",
-		"function": "cors.Middleware.Wrap (handler)",
-		"bound":    map[string]any{"configurations": configs, "requests": reqs},
-		"cases":    pairs, "distinct_pairs_agreeing_on_vary": distinct,
-		"ok": found && fails == 0,
+		"name":     "bounded/" + tag + ".concrete_search",
+		"kind":     "BOUNDED search on the real middleware (not a proof): " + what,
+		"function": "cors.Middleware.Wrap (handler) behind NewMiddleware",
+		"bound":    summary,
+		"ok":       found && fails == 0,
 	}
 	if !found {
 		d["output"] = firstLines(out, 30)
 	}
 	if fails > 0 {
 		d["failing_cases"] = failLines
-		d["how_to_replay"] = "copy /verif/harness/c10_pairs_test.go into /repo and run go test -run TestGovcC10 -v"
+		d["how_to_replay"] = "copy /verif/harness/" + file + " into /repo and run go test -run '" + testRe + "' -v"
 	}
 	if asReplay {
 		ck.replayExtra = func(r *Result) (map[string]any, bool) { return d, found && fails > 0 }
